@@ -108,10 +108,11 @@ def run_reload(wk, nhup, new_workers, seed, bind="tcp"):
 
 
 def reload_side(ctx):
-    plan = [("sync", 1, 3, "tcp"), ("gthread", 2, 1, "localhost"), ("gevent", 1, 3, "unix"), ("gevent", 1, 2, "tcp2")] if ctx.quick else \
+    plan = [("sync", 1, 3, "tcp"), ("gthread", 2, 1, "localhost"), ("gevent", 1, 3, "unix"), ("gevent", 1, 2, "tcp2"),
+            ("gthread", 1, 2, "unix"), ("sync", 2, 2, "unix")] if ctx.quick else \
         [(wk, n, w, b) for wk in ("sync", "gthread", "gevent", "eventlet")
          for (n, w, b) in ((1, 3, "tcp"), (2, 1, "localhost"), (3, 2, "unix"), (1, 2, "tcp2"))]
-    results = _parallel(plan, lambda a, i: run_reload(a[0], a[1], a[2], ctx.seed * 10 + i, bind=a[3]))
+    results = _parallel(plan, lambda a, i: run_reload(a[0], a[1], a[2], ctx.seed * 10 + i, bind=a[3]), par=6)
     traces = [r[0] for r in results]
     metas = [r[1] for r in results]
     # in-process: TERM (what a reload sends to the old workers) at every system-call boundary of the real sync loop
